@@ -6,7 +6,7 @@
    `objective I` = build_objective, `get_routes I x` = get_routes.  A vector x is a list of integers
    of length num_variables; `selected I x` are the tuples whose entry is non-zero, in index order. *)
 From Coq Require Import Sorting.Permutation.
-From VQ Require Import Base Vrptw Vrptw_facts Arc Arc_facts Arc_routes Arc_complete.
+From VQ Require Import Base Vrptw Vrptw_facts Arc Arc_ref Arc_facts Arc_routes Arc_complete.
 
 (* 1. the variables are exactly the admissible moves (shared with C18) *)
 Theorem C05_vars_admissible :
@@ -172,7 +172,7 @@ Example C05_decode_merges_routes_through_depot :
 Proof. vm_compute. split; reflexivity. Qed.
 
 (* 6. completeness with respect to the VRPTW of the doc (section 2).  Reference semantics
-   (Arc_complete.v): for a customer sequence cs,  vrptw_route g cs = Some [(0,0); (c1,T1); ...; (cK,TK); (0,Te)]
+   (Arc_ref.v): for a customer sequence cs,  vrptw_route g cs = Some [(0,0); (c1,T1); ...; (cK,TK); (0,Te)]
    iff every consecutive pair is an arc, T_0 = 0, T_{k+1} = max(a_{k+1}, T_k + t_{k,k+1}) and T_k <= b_k for
    every k including the return to the depot;  route_cost g 0 (cs ++ [0]) is the summed arc cost.
    A plan is a list of (cs, visits).  If every route of the plan is non-empty and valid, every visit time is
